@@ -1,10 +1,12 @@
 SPECIFICATION Spec
 CONSTANTS Times <- McTimes
  ExpChoices <- McExp
- OfferMenu <- McMenu
+ OfferMenu <- McMenuX
  MaxBlocks = 5
  MaxBoots = 1
  DupCheck = TRUE
  PayloadIdentity = TRUE
-INVARIANTS AtMostOnce InWindow ForkFree
+ Encs = {"c", "h", "k", "g", "x"}
+ CarrierIdentity = FALSE
+INVARIANTS AtMostOnce InWindow ForkFree CarrierFree
 CHECK_DEADLOCK FALSE
